@@ -22,6 +22,8 @@ THEMES = {
     "storage": (CP + ["load_account", "initial_account_load", "sload", "sstore", "create_account_checkpoint", "tstore", "tload"], [0], [0, 1], [3, 16, 17], [0, 1]),
     "misc": (CP + ["load_code", "set_code", "log", "tstore", "touch", "finalize", "inc_nonce", "selfdestruct"], [0], [0, 1], [3, 16, 17], [0, 1]),
     "nested": (CP + ["load_account", "transfer", "sstore", "tstore", "log", "inc_nonce"], [1], [0, 1], [16, 17], [0]),
+    "nested2": (CP + ["load_account", "sstore", "tstore", "inc_nonce"], [1], [0, 1], [16], [0]),
+    "sd2": (CP + ["load_account", "selfdestruct", "transfer"], [1], [0], [16, 17], [0]),
     "all": (ALL_OPS, [0, 1, 2], [0, 1, 2], [3, 16, 17], [0, 1]),
 }
 DBS = {
@@ -43,10 +45,10 @@ def tla_db(db):
     return " @@ ".join("(%d :> %s)" % (a, acc(r)) for a, r in db.items())
 
 
-def one(ctx, res, binary, name, dbname, rule, theme, maxhist, bshift, workers=8, sim=0, maxdepth=2):
+def one(ctx, res, binary, name, dbname, rule, theme, maxhist, bshift, workers=8, sim=0, maxdepth=2, simtheme="all"):
     db = DBS[dbname]
     sd, cancun = RULES[rule]
-    ops, values, vals, addrs, slots = THEMES[theme]
+    ops, values, vals, addrs, slots = THEMES[simtheme if sim else theme]
     db = {a: dict(r, stor={k: v for k, v in r["stor"].items() if k in slots}) for a, r in db.items() if a in addrs}
     consts = dict(Addr=vf.tla_set(addrs), Slot=vf.tla_set(slots), Val=vf.tla_set(vals), Cap=4, NBig=100, Db=tla_db(db),
                   PreWarm=vf.tla_set([a for a in addrs if a == 3]), SD="TRUE" if sd else "FALSE", CANCUN="TRUE" if cancun else "FALSE",
@@ -80,16 +82,21 @@ def run(ctx, pid):
     if ctx.quick:
         r0 = rules[ctx.seed % 3]
         plan = [("A", "LONDON", "balance", 4, 254), ("A", "CANCUN", "storage", 3, 254),
-                ("B", "HOMESTEAD", "balance", 3, 0), ("B", r0, "misc", 4, 254), ("A", r0, "nested", 7, 254)]
-        sims = [("A", "CANCUN", 1500, 14), ("B", "HOMESTEAD", 1500, 14)]
+                ("B", "HOMESTEAD", "balance", 3, 0), ("B", r0, "misc", 4, 254), ("A", r0, "nested", 5, 254),
+                ("A", r0, "nested2", 8, 254), ("A", ["LONDON", "CANCUN", "HOMESTEAD"][ctx.seed % 3], "sd2", 6, 0)]
+        sims = [("A", "CANCUN", 1500, 14, "all"), ("B", "HOMESTEAD", 1500, 14, "all"), ("A", r0, 2500, 12, "nested2")]
     else:
         plan = [(d, r, t, 4, b) for d in "AB" for r in RULES for t in ("balance", "storage", "misc") for b in (254,)]
-        plan += [("A", "LONDON", "balance", 5, 0), ("B", "CANCUN", "nested", 7, 254), ("A", "HOMESTEAD", "nested", 7, 254)]
-        sims = [(d, r, 15000, 16) for d in "AB" for r in RULES]
+        plan += [("A", "LONDON", "balance", 5, 0), ("B", "CANCUN", "nested", 6, 254), ("A", "HOMESTEAD", "nested", 6, 254),
+                 ("A", "CANCUN", "nested2", 9, 254), ("B", "LONDON", "nested2", 9, 254)]
+        plan += [("A", r, "sd2", 7, 0) for r in RULES]
+        sims = [(d, r, 15000, 16, "all") for d in "AB" for r in RULES] + [("A", r, 20000, 14, "nested2") for r in RULES]
     for d, r, t, h, b in plan:
-        one(ctx, res, binary, "j_%s_%s_%s_%d_%d" % (d, r, t, h, b), d, r, t, h, b)
-    for d, r, n, depth in sims:
-        one(ctx, res, binary, "jsim_%s_%s" % (d, r), d, r, "all", depth, 254, sim=n, maxdepth=4)
+        one(ctx, res, binary, "j_%s_%s_%s_%d_%d" % (d, r, t, h, b), d, r, t, h, b, maxdepth=3 if t == "nested2" else 2)
+    # random behaviours judge whole histories step by step: they distinguish histories that reach the
+    # same abstract state through different journal shapes (e.g. a write inside a committed inner checkpoint)
+    for d, r, n, depth, th in sims:
+        one(ctx, res, binary, "jsim_%s_%s_%s" % (d, r, th), d, r, "all", depth, 254, sim=n, maxdepth=4, simtheme=th)
     res.exhaustive = True
     res.assumptions += ["documented API preconditions are enabling conditions of the model",
                         "after a failed transfer only the state after the enclosing revert is judged",
